@@ -68,6 +68,8 @@ def apply_models(root: pathlib.Path, model_src: pathlib.Path):
         s = re.sub(r'^([ \t]*(?:pub(?:\([a-z]+\))? )?)use (std::[^;]*);', _rewrite_use, s, flags=re.M)
         inmac = 'macros' in f.relative_to(root).parts
         base = 'simplesl::verif_model::' if inmac else 'crate::verif_model::'
+        # the thin-pointer Arc model has no unsized coercion Arc<[T; N]> -> Arc<[T]>: use From<[T; N]>
+        s = s.replace('Arc::new([', 'Arc::from([')
         s = s.replace('std::sync::Arc', base + 'Arc')
         s = s.replace('std::collections::HashMap', base + 'HashMap')
         s = s.replace('std::collections::HashSet', base + 'HashSet')
@@ -93,6 +95,94 @@ def apply_models(root: pathlib.Path, model_src: pathlib.Path):
             if re.search(r'\b(Arc|HashMap|HashSet)\b', m.group(0)):
                 raise PatchError(f'{f}: unrewritten std import {m.group(0)!r}')
     return touched
+
+# Data-carrying enums of the crate get an explicit tag (`#[repr(u8)]`) in the scratch copy.  rustc
+# otherwise stores e.g. the discriminant of `Instruction` in the niche of the embedded `Variable`'s
+# own tag; for values living in heap objects CBMC cannot recover such a tag and walks every arm.
+# This changes layout only, never behaviour.
+REPR_ENUMS = {
+    'src/variable.rs': ['Variable'],
+    'src/instruction.rs': ['Instruction', 'ExecStop'],
+    'src/variable/type.rs': ['Type'],
+    'src/instruction/local_variable.rs': ['LocalVariable'],
+    'src/instruction/control_flow/match_arm.rs': ['MatchArm'],
+    'src/function/body.rs': ['Body'],
+}
+
+def open_fields(root: pathlib.Path):
+    """Make the private fields of the instruction structs `pub(crate)` in the scratch copy so that one
+    harness module can build any instruction by struct literal (visibility only, no behaviour)."""
+    n = 0
+    for f in sorted(root.glob('src/instruction/**/*.rs')) + [root / 'src/instruction.rs']:
+        if f.name.startswith('verif_') or not f.exists():
+            continue
+        s = f.read_text()
+        def fix(m):
+            nonlocal n
+            body = re.sub(r'^(\s+)(?!pub\b)(?!//)(?!#)([a-z_][a-z0-9_]*\s*:)', lambda mm: (mm.group(1) + 'pub(crate) ' + mm.group(2)), m.group(2), flags=re.M)
+            n += 1
+            return m.group(1) + body + m.group(3)
+        s2 = re.sub(r'(pub(?:\(crate\))? struct \w+ \{\n)(.*?)(\n\})', fix, s, flags=re.S)
+        if s2 != s:
+            f.write_text(s2)
+    return n
+
+def apply_gating(root: pathlib.Path):
+    """Declared-shape gating (scratch copy, cfg(kani) only).  CBMC cannot resolve the tag of an
+    `Instruction` stored in a heap object larger than 16 bytes, so `Instruction::{exec,recreate,
+    return_type}` would be explored through all 25 kinds at every level.  Each arm of those three
+    dispatchers gets a first statement `gate_of(ins)`: a harness may declare the set of instruction
+    kinds its tree contains (`verif_common::allow(..)`); an arm of an undeclared kind then ends in
+    `panic!` instead of being explored.  Sound: if a real execution reaches an undeclared kind the
+    panic is reachable and the harness FAILS.  Default: every kind allowed (no effect)."""
+    f = root / 'src/instruction.rs'
+    s = f.read_text()
+    m = re.search(r'pub enum Instruction \{\n(.*?)\n\}', s, re.S)
+    if not m:
+        return []
+    variants = []
+    for line in m.group(1).splitlines():
+        mm = re.match(r'\s+(\w+)\((.+)\),\s*$', line)
+        if mm and ',' not in mm.group(2):
+            variants.append((mm.group(1), mm.group(2)))
+    gen = ['', '#[cfg(kani)]', 'pub mod verif_gate {', '    use super::*;',
+           '    pub trait VerifKind { const K: u32; }']
+    for i, (name, ty) in enumerate(variants):
+        gen.append(f'    impl VerifKind for {ty} {{ const K: u32 = {i}; }}')
+        gen.append(f'    pub const K_{name.upper()}: u32 = {i};')
+    gen += ['    pub static mut ALLOWED: u32 = u32::MAX;',
+            '    pub fn allow(kinds: &[u32]) { let mut m = 0u32; let mut i = 0; while i < kinds.len() { m |= 1 << kinds[i]; i += 1; } unsafe { ALLOWED = m; } }',
+            '    pub fn allow_all() { unsafe { ALLOWED = u32::MAX; } }',
+            '    #[inline(always)] pub fn gate_of<T: VerifKind>(_: &T) { if unsafe { ALLOWED } & (1 << T::K) == 0 { panic!("instruction kind outside the set declared by the harness") } }',
+            '}', '']
+    n = 0
+    for old, new in (('=> ins.exec(interpreter),', '=> { #[cfg(kani)] verif_gate::gate_of(ins); ins.exec(interpreter) },'),
+                     ('=> ins.recreate(local_variables),', '=> { #[cfg(kani)] verif_gate::gate_of(ins); ins.recreate(local_variables) },'),
+                     ('=> ins.return_type(),', '=> { #[cfg(kani)] verif_gate::gate_of(ins); ins.return_type() },')):
+        if old in s:
+            s = s.replace(old, new)
+            n += 1
+    if n == 0:
+        return []
+    f.write_text(s + '\n'.join(gen))
+    return [v[0] for v in variants]
+
+def apply_layout(root: pathlib.Path):
+    open_fields(root)
+    apply_gating(root)
+    done = []
+    for rel, names in REPR_ENUMS.items():
+        f = root / rel
+        if not f.exists():
+            continue  # refactored away: nothing to do (layout help only, not needed for soundness)
+        s = f.read_text()
+        for n in names:
+            pat = re.compile(r'^(pub(?:\([a-z]+\))? enum ' + n + r'\b)', re.M)
+            if pat.search(s):
+                s = pat.sub(r'#[repr(u8)]\n\1', s, count=1)
+                done.append(n)
+        f.write_text(s)
+    return done
 
 HDR = re.compile(r'^//@\s*(\w+)\s*:\s*(.*)$', re.M)
 
